@@ -12,7 +12,7 @@ R5 release at workflow end (C05.L3) and the reservation count follows the idle t
 import ast
 
 from ..index import AnalysisError, walk_no_nested
-from ..norm import Affine, Canon, Lit, Logic, ProvCanon, affine, effects_of_event, lit_le, lit_lt, minmax_term
+from ..norm import Affine, Canon, Lit, Logic, ProvCanon, affine, effects_of_event, path_effects, lit_le, lit_lt, minmax_term
 from ..paths import Frame, cached_paths, expanded_paths, feasible
 from ..skel import outcomes
 from . import cluster_units as CU
@@ -211,7 +211,7 @@ def r4(repo, res, canon, logic):
     n = 0
     for p in paths:
         must = path_must(logic, p)
-        apps = [ef for e in p.events for ef in effects_of_event(canon, e) if ef.kind == 'append' and ef.arg == m]
+        apps = [ef for ef in path_effects(canon, p.events) if ef.kind == 'append' and ef.arg == m]
         reserved = Lit('%s in %s' % (o, IDLE), True) in must
         notres = Lit('%s in %s' % (o, IDLE), False) in must
         if len(apps) != 1:
